@@ -42,8 +42,8 @@ ValidAbsId(s) == /\ 0 <= s[1] /\ 0 <= s[4]
 \* result <<minX, minY, maxX, maxY>>
 HorizontalZoomMinMax(zi, x, y, zo) ==
   IF zo > zi THEN LET n == Pow2(zo - zi) IN <<x * n, y * n, x * n + n - 1, y * n + n - 1>>
-  ELSE IF zo < zi THEN LET n == Pow2(zi - zo) IN
-         <<FloorDiv(x, n), FloorDiv(y, n), FloorDiv(x, n), FloorDiv(y, n)>>
+  ELSE IF zo < zi THEN LET d == zi - zo IN
+         <<FloorDivPow2(x, d), FloorDivPow2(y, d), FloorDivPow2(x, d), FloorDivPow2(y, d)>>
   ELSE <<x, y, x, y>>
 
 \* set of horizontal components <<zo, x, y>>
@@ -61,7 +61,7 @@ HorizontalZoomSeq(zi, x, y, zo) ==
 \* <<min, max>> of the vertical index; floor semantics below ground
 VerticalZoomMinMax(zi, f, zo) ==
   IF zo > zi THEN LET n == Pow2(zo - zi) IN <<f * n, f * n + n - 1>>
-  ELSE IF zo < zi THEN LET a == FloorDiv(f, Pow2(zi - zo)) IN <<a, a>>
+  ELSE IF zo < zi THEN LET a == FloorDivPow2(f, zi - zo) IN <<a, a>>
   ELSE <<f, f>>
 
 VerticalZoomSet(zi, f, zo) ==
@@ -80,8 +80,8 @@ ChangeZoom(S, h, v) == UNION {ChangeZoomOne(s, h, v) : s \in S}
 
 \* the floor ancestor of s at coarser-or-equal zooms (h <= s.h, v <= s.v)
 Ancestor(s, h, v) ==
-  <<h, FloorDiv(s[2], Pow2(s[1] - h)), FloorDiv(s[3], Pow2(s[1] - h)),
-    v, FloorDiv(s[5], Pow2(s[4] - v))>>
+  <<h, FloorDivPow2(s[2], s[1] - h), FloorDivPow2(s[3], s[1] - h),
+    v, FloorDivPow2(s[5], s[4] - v)>>
 
 \* mirrors object.ExtendedSpatialID.Higher
 Higher(s, dh, dv) == Ancestor(s, s[1] - dh, s[4] - dv)
@@ -122,7 +122,7 @@ InTreeDomain(t) == t[1] >= 1 /\ -Pow2(t[1] - 1) <= t[2] /\ t[2] < Pow2(t[1] - 1)
 WrapX(x, h, abs) == IF abs THEN x % Pow2(h) ELSE x
 
 \* floor(n * 2^h / 2^k) without overflow for either order of h and k
-ScaleFloor(n, h, k) == IF h >= k THEN n * Pow2(h - k) ELSE FloorDiv(n, Pow2(k - h))
+ScaleFloor(n, h, k) == IF h >= k THEN n * Pow2(h - k) ELSE FloorDivPow2(n, k - h)
 
 PointX(p, h, abs) == WrapX(ScaleFloor(p[2], h, p[1]), h, abs)
 PointY(p, h) == IF p[6] = 1 THEN 0
